@@ -18,10 +18,21 @@ class RW:
     pass
 
 
-def make_workload(rng, casedir, nrec, tag="w", big_tag=None, read_len=(30, 200)):
+def make_workload(rng, casedir, nrec, tag="w", big_tag=None, read_len=(30, 200), long_reads=0):
     w = RW()
-    g = rgfa.gen_rgfa(rng, size="medium", id_style="s")
-    rgfa.stretch(g, rng, 5)
+    if long_reads:
+        # a linear graph long enough for alignments of more than 60 000 read bases (written back unchanged)
+        g = rgfa.Graph()
+        prev = None
+        for i in range(8):
+            nid = g.add_node(f"s{i + 1}", "chr1", i * 9000, rgfa.rand_seq(rng, 9000), 0)
+            if prev:
+                g.add_link(prev, "+", nid, "+", 0, rng=rng)
+            prev = nid
+        g.ref_order = {"chr1": list(g.nodes)}
+    else:
+        g = rgfa.gen_rgfa(rng, size="medium", id_style="s")
+        rgfa.stretch(g, rng, 5)
     w.g = g
     w.gfa = g.write(os.path.join(casedir, f"{tag}.gfa"), rng=rng)
     succ = g.successors()
@@ -30,6 +41,10 @@ def make_workload(rng, casedir, nrec, tag="w", big_tag=None, read_len=(30, 200))
         wk = rgfa.random_walk(g, rng, rng.choice([1, 2, 4]), succ)
         tags = "safe" if not big_tag else [f"zl:Z:{'x' * big_tag}"]
         recs.append(greads.make_read_record(g, rng, wk, f"r{i:04d}", tags=tags, max_span=read_len[1], min_span=min(read_len[0], 5)))
+    for k in range(long_reads):
+        full = [(n, ">") for n in g.nodes]
+        r = greads.make_read_record(g, rng, full, f"long{k:02d}", tags="safe", rate=0.0, frag=False, exact_span=rng.choice([60001, 60500]))
+        recs.insert(rng.randint(0, len(recs)), r)
     w.recs = recs
     w.lines = [r.line for r in recs]
     w.gaf = os.path.join(casedir, f"{tag}.gaf")
